@@ -1,7 +1,7 @@
 #!/usr/bin/env python3
 """Maintenance helper (not used by the checks): import a confirmed seeded change into /verif/seeded.
 
-usage: import_seed.py <src_dir> <name> <property> [other properties to try ...]
+usage: [ROUND=3] [NOTE="history note"] import_seed.py <src_dir> <name> <property> [other properties to try ...]
 The source directory must hold patch.diff, demo.py, README.md and confirm.json (written by the confirmation run).
 The detecting rule is found by replaying the patch on an overlay with the property's rule set.
 """
@@ -27,12 +27,14 @@ for p in [prop] + others:
         own = [r for r in rules if r.startswith(p + ".")]
         det[p] = (own or rules)[0]
         break
-meta = {"property": prop, "title": title, "needs_to_manifest": needs, "round": 2,
+meta = {"property": prop, "title": title, "needs_to_manifest": needs, "round": int(os.environ.get("ROUND", "2")),
         "origin": "written by a fresh sub-agent that saw only the property text and a scratch worktree of /repo",
         "confirmed": {"by": "re-run by the main session in a scratch worktree (git worktree add, git apply patch.diff)",
                       "commands": ["PYTHONPATH=<worktree>/src /venv/bin/python demo.py  # exit 0 on the clean tree, non-zero with the change",
                                    "baseline test command of /root/.vp/BASELINE.json in the worktree; per-test outcomes compared with the clean tree (tests/test_io/test_sbml.py re-run serially because of an xdist race on a shared file)"],
                       "result": conf},
         "detected_by": det}
+if os.environ.get("NOTE"):
+    meta["history"] = [os.environ["NOTE"]]
 json.dump(meta, open(os.path.join(dst, "meta.json"), "w"), indent=1)
 print(name, "|", title[:80], "|", det or "NOT DETECTED")
